@@ -454,7 +454,9 @@ def check(pid, tier, seed, only_random=False, extra=None):
         notes.append("%d further violating executions not written out" % (nviol - 5))
 
     extra_cov = {}
-    if extra is None and pid in EST_TAGS:
+    if extra is None and pid == "C16":
+        extra = c16_parts
+    elif extra is None and pid in EST_TAGS:
         extra = est_part
     if extra is not None:
         xv, extra_cov, xnotes = extra(pid, tier, seed, rnd)
@@ -497,6 +499,18 @@ def check(pid, tier, seed, only_random=False, extra=None):
 
 # properties that also consume the establishment-phase traces (harness/est_exec, spec/XcmEst*.tla)
 EST_TAGS = {"C01", "C04", "C05", "C06", "C07", "C16"}
+
+
+def c16_parts(pid, tier, seed, rnd):
+    """C16 = establishment-phase traces + the refinement layer underneath xcm_fd(): spec/XPoll.tla against the real xpoll.c"""
+    import xpoll
+    v1, c1, n1 = est_part(pid, tier, seed, rnd)
+    v2, c2, n2 = xpoll.part(pid, tier, seed, rnd)
+    c1["xpoll"] = c2
+    c1["states"] = c1.get("states", 0) + c2["states"]
+    c1["transitions"] = c1.get("transitions", 0) + c2["transitions"]
+    c1["executions"] = c1.get("executions", 0) + c2["executions"]
+    return v1 + v2, c1, n1 + n2
 
 
 def est_part(pid, tier, seed, rnd):
@@ -643,8 +657,11 @@ def replay(pid, path):
     if path.endswith(".scn"):
         import check_c13
         return check_c13.replay(pid, path)
+    if path.endswith(".xps"):
+        import xpoll
+        return xpoll.replay(pid, path)
     lines0 = [l.rstrip("\n") for l in open(path) if l.strip() and not l.startswith("#")]
-    if lines0 and len(lines0[0].split()) >= 4 and lines0[0].split()[3] in ("normal", "refused", "silent", "release", "mute", "garbage", "idle"):
+    if lines0 and len(lines0[0].split()) >= 4 and lines0[0].split()[3] in ("normal", "refused", "silent", "release", "mute", "garbage", "idle", "ctlflood", "blocking", "garbage2", "longidle"):
         import est
         binary = vlib.build(["est_exec"])[0]
         d, batch, _ = est.run(binary, lines0, "replay_%s" % pid, nproc=1)
